@@ -301,6 +301,12 @@ def primitives_tie(rng, n=2000):
     for i in range(0, n, 3):
         s = strs[i]
         pats[i] = s[:rng.randint(0, len(s))] + rng.choice(['', '*'])
+    # a pattern that ends in an unescaped backslash is outside what Model/Glob.v describes (bash then matches a literal
+    # backslash; the script never builds such a pattern since 7d4f01b quotes the operands): keep the patterns inside the domain
+    for i, pt in enumerate(pats):
+        while (len(pt) - len(pt.rstrip('\\'))) % 2 == 1:
+            pt = pt[:-1]
+        pats[i] = pt
     script = r'''
 mapfile -t P < "$1"; mapfile -t S < "$2"
 for ((i = 0; i < ${#P[@]}; i++)); do
